@@ -23,7 +23,8 @@ SPEC = dict(
                  "default messages/scope as documented"],
     required=["sibling_sets", "loads_compared", "show_compared", "dry_update_compared", "bool_spelling:yes",
               "bool_spelling:on", "bool_spelling:1", "bool_spelling:TRUE", "bool_spelling:no", "glob_entries",
-              "legacy_section_loads", "explicit_self_entries_with_extra_pattern", "ini_layout:inline", "ini_layout:mixed"],
+              "legacy_section_loads", "explicit_self_entries_with_extra_pattern", "ini_layout:inline", "ini_layout:mixed",
+              "configs_without_file_patterns_section"],
     anchors=[("config", "_parse_cfg"), ("config", "_parse_toml"), ("config", "_parse_config"),
              ("config", "_parse_cfg_file_patterns"), ("config", "_iter_glob_expanded_file_patterns"),
              ("config", "_parse_raw_config")],
@@ -109,6 +110,8 @@ def gen_abstract(R, tdy):
     a["entries"] = entries
     # the config file may list itself, with a second pattern for another line of the config file
     a["self_entry"] = R.choice([None, None, "default-only", "with-extra", "with-extra"])
+    # no configured file at all: the (empty) file_patterns section may be left out entirely
+    a["omit_empty_file_patterns_section"] = R.random() < 0.6
     return a
 
 
@@ -127,7 +130,8 @@ def serialise(a, syntax, R):
         for k in ("commit", "tag", "push"):
             if k in a:
                 lines.append(f"{k} = {'true' if a[k] else 'false'}")
-        lines += ["", f"[{sect}.file_patterns]"]
+        if a["entries"] or a.get("self_entry") or not a.get("omit_empty_file_patterns_section"):
+            lines += ["", f"[{sect}.file_patterns]"]
         if a.get("self_entry"):
             own = ['current_version = "{version}"'] + (["released as {version} !"] if a["self_entry"] == "with-extra" else [])
             lines.append(f"{q(fname)} = [" + ", ".join(q(p) for p in own) + "]")
@@ -150,7 +154,8 @@ def serialise(a, syntax, R):
                 sp = R.choice(TRUE_SPELLINGS if a[k] else FALSE_SPELLINGS)
                 spelled[k] = sp
                 lines.append(f"{k} = {sp}")
-        lines += ["", f"[{sect}:file_patterns]"]
+        if a["entries"] or a.get("self_entry") or not a.get("omit_empty_file_patterns_section"):
+            lines += ["", f"[{sect}:file_patterns]"]
         if a.get("self_entry"):
             lines.append(f"{fname} =")
             lines.append("    current_version = " + ('"{version}"' if quoted else "{version}"))
@@ -244,7 +249,9 @@ def run_case(ctx, case):
                 ctx.count("bool_spelling:" + sp)
     if any("*" in key for key, _f, _p in a["entries"]):
         ctx.count("glob_entries")
-    ntk = (tuple(sorted(k for k in a if k not in ("vp", "cur", "entries", "legacy"))), len(a["entries"]),
+    if not a["entries"] and not a.get("self_entry") and a["omit_empty_file_patterns_section"]:
+        ctx.count("configs_without_file_patterns_section")
+    ntk = (tuple(sorted(k for k in a if k not in ("vp", "cur", "entries", "legacy", "omit_empty_file_patterns_section"))), len(a["entries"]),
            sum(len(p) for _k, _f, p in a["entries"]), any("*" in k for k, _f, _p in a["entries"]), a["legacy"])
     ctx.evaluated(ntk, sample={"abstract": {k: v for k, v in a.items()}, "one_serialisation": results[3]["text"][:500]})
     desc = {"abstract": a, "texts": {f"{r['syntax'][0]}:{r['syntax'][1]}": r["text"] for r in results}}
